@@ -119,6 +119,69 @@ pub fn check_f64(rep: &mut Report, bits: u64) {
     }
 }
 
+/// One array of floats of mixed widths read through the narrower (f32) element type.
+fn check_mixed_seq(rep: &mut Report, seed: u64, i: u64) {
+    let mut rng = Rng::derive("c12/seq", seed, 0, i);
+    let k = 1 + rng.below(4) as usize;
+    let mut items: Vec<vcore::refcbor::Item> = Vec::new();
+    let mut ok32: Vec<u32> = Vec::new(); // values an f32 reader may yield (as f32 bits)
+    for _ in 0..k {
+        match rng.below(3) {
+            0 => {
+                let h = rng.next_u32() as u16;
+                items.push(vcore::refcbor::Item::F16(h));
+                ok32.push(refnum::f16_bits_to_f32_bits(h));
+            }
+            1 => {
+                let b = vcore::gen::gen_f32_bits(&mut rng);
+                items.push(vcore::refcbor::Item::F32(b));
+                ok32.push(b);
+            }
+            _ => items.push(vcore::refcbor::Item::F64(vcore::gen::gen_f64_bits(&mut rng))),
+        }
+    }
+    let indef = rng.bool();
+    let enc = if indef { vcore::refcbor::Item::array_indef(items.clone()) } else { vcore::refcbor::Item::array(items.clone()) }.encode();
+    let input: Box<[u8]> = enc.into_boxed_slice();
+    rep.seen(vcore::rng::fnv64(&input));
+    let mut d = minicbor::Decoder::new(&input);
+    let mut bad: Option<String> = None;
+    if let Ok(it) = d.array_iter::<f32>() {
+        for (j, x) in it.take(2 * k + 3).enumerate() {
+            if let Ok(v) = x {
+                let vb = v.to_bits();
+                let nan_ok = refnum::is_nan32(vb) && ok32.iter().any(|b| refnum::is_nan32(*b));
+                if !ok32.contains(&vb) && !nan_ok {
+                    bad = Some(format!("array_iter::<f32>() step {} yielded {:08x}, which is none of the half / single items of the array", j, vb));
+                    break;
+                }
+            }
+        }
+    }
+    // the same through repeated f32() calls on one decoder (stop at the first success-less round)
+    if bad.is_none() {
+        let mut d = minicbor::Decoder::new(&input);
+        if d.array().is_ok() {
+            for j in 0..(2 * k + 3) {
+                match d.f32() {
+                    Ok(v) => {
+                        let vb = v.to_bits();
+                        let nan_ok = refnum::is_nan32(vb) && ok32.iter().any(|b| refnum::is_nan32(*b));
+                        if !ok32.contains(&vb) && !nan_ok {
+                            bad = Some(format!("f32() call {} on the same decoder returned {:08x}, which is none of the half / single items of the array", j, vb));
+                            break;
+                        }
+                    }
+                    Err(_) => {}
+                }
+            }
+        }
+    }
+    if let Some(what) = bad {
+        rep.violation(&format!("{}|narrower accessor yields a foreign value", ID), J::obj().with("what", J::s(what)).with("input", J::s(vcore::json::hex(&input))), vec!["c12".into(), "--seed".into(), seed.to_string(), "--replay".into(), "seq".into(), i.to_string()]);
+    }
+}
+
 fn guarded_block(rep: &mut Report, what: &str, f: impl FnOnce(&mut Report)) {
     if let Err(p) = mon::guarded(|| f(rep)) {
         rep.violation(&format!("{}|panic", ID), J::obj().with("what", J::s(format!("panic in {}: {} at {}", what, p.message, p.location))), vec![]);
@@ -258,12 +321,32 @@ pub fn run(a: &Args, rep: &mut Report) {
         rep.count_n("f64/random patterns", r);
         rep.evals(n + r);
     });
+    // sequences of floats of mixed widths read through a narrower element type: whatever the
+    // iterator / repeated accessor yields as Ok must be one of the items a narrower accessor may
+    // accept - never a number made of a wider item's payload bytes
+    guarded_block(rep, "mixed-width sequences", |rep| {
+        let nseq: u64 = if a.thorough() { 2_000_000 } else { 200_000 };
+        let mut n = 0u64;
+        for i in 0..nseq {
+            if !a.mine(i) {
+                continue;
+            }
+            check_mixed_seq(rep, a.seed, i);
+            n += 1;
+        }
+        rep.evals(n);
+        rep.count_n("mixed-width float sequences", n);
+    });
     rep.sample(J::obj().with("pattern", J::s("f16:0001")).with("expect", J::s("f16()/f32() = 2^-24 exactly (bits 33800000), f64() bits 3e70000000000000")));
     rep.sample(J::obj().with("pattern", J::s("f32:477fefff")).with("expect", J::s("Encoder::f16 rounds 65519.996 to 7bff; 477ff000 (65520) to 7c00 (inf)")));
     rep.sample(J::obj().with("pattern", J::s("f32:7f800001")).with("expect", J::s("signalling NaN: identical bits through f32 encode/decode; NaN through f64()/f16")));
 }
 
 pub fn replay(a: &Args, rep: &mut Report) {
+    if a.replay[0] == "seq" {
+        rep.eval();
+        return check_mixed_seq(rep, a.seed, a.replay[1].parse().unwrap());
+    }
     let bits = u64::from_str_radix(&a.replay[1], 16).unwrap();
     rep.eval();
     match a.replay[0].as_str() {
